@@ -5,6 +5,7 @@
 EXTENDS KernelCore, Json
 
 CONSTANTS MaxReqs, Tags, TwoClients, Stores,
+          Burst,        \* number of stdout records a "burst" cell emits in one go (without yielding to the loop)
           Pipelining    \* FALSE: clients write the next request only when the session is quiescent
 \* identities (routing prefix) of the requesting client: one frame, or two frames (a client behind a proxy)
 Who == IF TwoClients THEN {<<"A">>, <<"B", "b2">>} ELSE {<<"A">>}
@@ -14,11 +15,12 @@ CellOf(tag, n) ==
   CASE tag = "ok"     -> [NoCell EXCEPT !.runs = TRUE, !.append = TRUE, !.out = "acc"]
     [] tag = "stmt"   -> [NoCell EXCEPT !.runs = TRUE, !.append = TRUE]
     [] tag = "print"  -> [NoCell EXCEPT !.runs = TRUE, !.prints = <<"p" \o ToString(n)>>, !.out = "acc"]
+    [] tag = "burst"  -> [NoCell EXCEPT !.runs = TRUE, !.prints = [k \in 1..Burst |-> "b" \o ToString(n) \o "." \o ToString(k)], !.out = "acc"]
     [] tag = "err"    -> [NoCell EXCEPT !.runs = TRUE, !.append = TRUE, !.out = "error", !.ename = "ZeroDivisionError"]
     [] tag = "perr"   -> [NoCell EXCEPT !.runs = TRUE, !.prints = <<"q" \o ToString(n)>>, !.out = "error", !.ename = "ValueError"]
     [] tag = "syntax" -> [NoCell EXCEPT !.out = "error", !.ename = "SyntaxError"]
     [] OTHER -> NoCell
-ExecTags   == {"ok", "stmt", "print", "err", "perr", "syntax"}
+ExecTags   == {"ok", "stmt", "print", "burst", "err", "perr", "syntax"}
 ForgedTags == {"forged-key", "forged-sig", "forged-content"}
 KindOf(tag) == IF tag \in ExecTags \cup ForgedTags THEN "execute_request" ELSE tag
 Req(n, tag, who, store) ==
@@ -148,11 +150,21 @@ W_NoErrorReply   == \A j \in Outs : log[j].status # "error"
 W_CounterStuck   == \A j \in Outs : log[j].cnt < 2
 W_NoUnstored     == ~\E i \in VReqs : IsExec(log[i]) /\ ~log[i].store /\ Done(i)
 W_NoDeadSession  == alive
+W_NoBurst        == ~(Quiescent /\ \E i \in VReqs : Len(log[i].cell.prints) >= 3 /\ Done(i))   \* a burst of stdout, all of it published
+W_NoQueuedBurst  == Len(hq) < 3                                                             \* ... that was waiting in the queue at once
 WNames == <<"W_NoLateStdout", "W_NoForged", "W_NoSurvivor", "W_NoPipelining", "W_NoSecondClient", "W_NoErrorReply",
             "W_CounterStuck", "W_NoUnstored", "W_NoDeadSession">>
-WVals  == <<W_NoLateStdout, W_NoForged, W_NoSurvivor, W_NoPipelining, W_NoSecondClient, W_NoErrorReply,
-            W_CounterStuck, W_NoUnstored, W_NoDeadSession>>
+\* (a predicate is evaluated only until it has been seen violated once; a tuple of all of them would be evaluated
+\* in full at every use)
+WVal(k) == CASE k = 1 -> W_NoLateStdout [] k = 2 -> W_NoForged [] k = 3 -> W_NoSurvivor [] k = 4 -> W_NoPipelining
+             [] k = 5 -> W_NoSecondClient [] k = 6 -> W_NoErrorReply [] k = 7 -> W_CounterStuck [] k = 8 -> W_NoUnstored
+             [] k = 9 -> W_NoDeadSession
 ASSUME \A k \in 1..Len(WNames) : TLCSet(k, FALSE)
-TrackW == \A k \in 1..Len(WNames) : IF ~WVals[k] /\ ~TLCGet(k) THEN TLCSet(k, TRUE) ELSE TRUE
+TrackW == \A k \in 1..Len(WNames) : IF TLCGet(k) THEN TRUE ELSE IF ~WVal(k) THEN TLCSet(k, TRUE) ELSE TRUE
 WitnessesSeen == PrintT("INFO " \o ToJson([unseen |-> { WNames[k] : k \in { j \in 1..Len(WNames) : ~TLCGet(j) } }]))
+\* the same for the burst family (a run of its own: Tags with "burst"; CONSTRAINT TrackWB, POSTCONDITION WitnessesSeenB)
+WNamesB == <<"W_NoBurst", "W_NoQueuedBurst">>
+WValB(k) == CASE k = 1 -> W_NoBurst [] k = 2 -> W_NoQueuedBurst
+TrackWB == \A k \in 1..Len(WNamesB) : IF TLCGet(k) THEN TRUE ELSE IF ~WValB(k) THEN TLCSet(k, TRUE) ELSE TRUE
+WitnessesSeenB == PrintT("INFO " \o ToJson([unseen |-> { WNamesB[k] : k \in { j \in 1..Len(WNamesB) : ~TLCGet(j) } }]))
 =============================================================================
